@@ -142,6 +142,48 @@ bool DOMTextImpl::getIsElementContentWhitespace() const
     return isIgnorableWhitespace();
 }
 
+// Logically-adjacent text nodes are Text or CDATASection nodes that can be visited sequentially in document order or in
+// reversed document order without entering, exiting, or passing over Element, Comment, or ProcessingInstruction nodes.
+// So they are found among the siblings of a text node; the only nodes that can be entered and exited on the way
+// are entity references. The three functions below are used to walk along such a sequence.
+
+static inline bool endsAdjacentText(const DOMNode* node)
+{
+    return node->getNodeType()==DOMNode::ELEMENT_NODE
+        || node->getNodeType()==DOMNode::COMMENT_NODE
+        || node->getNodeType()==DOMNode::PROCESSING_INSTRUCTION_NODE;
+}
+
+// the previous node in reversed document order, as long as that does not lead out of anything but an entity reference
+static DOMNode* previousAdjacentNode(const DOMNode* node)
+{
+    DOMNode* prev=node->getPreviousSibling();
+    if(prev==NULL)
+    {
+        DOMNode* parent=node->getParentNode();
+        return (parent!=NULL && parent->getNodeType()==DOMNode::ENTITY_REFERENCE_NODE)?parent:NULL;
+    }
+    // the content of an entity reference comes before the reference itself
+    while(prev->getNodeType()==DOMNode::ENTITY_REFERENCE_NODE && prev->getLastChild()!=NULL)
+        prev=prev->getLastChild();
+    return prev;
+}
+
+// the next node in document order (optionally the next one that is not inside the node), as long as that does not
+// lead out of anything but an entity reference
+static DOMNode* nextAdjacentNode(const DOMNode* node, bool skipContent)
+{
+    if(!skipContent && node->getNodeType()==DOMNode::ENTITY_REFERENCE_NODE && node->getFirstChild()!=NULL)
+        return node->getFirstChild();
+    while(node->getNextSibling()==NULL)
+    {
+        node=node->getParentNode();
+        if(node==NULL || node->getNodeType()!=DOMNode::ENTITY_REFERENCE_NODE)
+            return NULL;
+    }
+    return node->getNextSibling();
+}
+
 const XMLCh* DOMTextImpl::getWholeText() const
 {
     DOMDocument *doc = getOwnerDocument();
@@ -149,27 +191,23 @@ const XMLCh* DOMTextImpl::getWholeText() const
         throw DOMException(DOMException::NOT_SUPPORTED_ERR, 0, GetDOMNodeMemoryManager);
         return 0;
     }
-    DOMNode* root=doc->getDocumentElement();
-    DOMTreeWalker* pWalker=doc->createTreeWalker(root!=NULL?root:(DOMNode*)this, DOMNodeFilter::SHOW_ALL, NULL, true);
-    pWalker->setCurrentNode((DOMNode*)this);
-    // Logically-adjacent text nodes are Text or CDATASection nodes that can be visited sequentially in document order or in
-    // reversed document order without entering, exiting, or passing over Element, Comment, or ProcessingInstruction nodes.
-    DOMNode* prevNode;
-    while((prevNode=pWalker->previousNode())!=NULL)
+    const DOMNode* pFirstTextNode=this;
+    const DOMNode* prevNode=this;
+    while((prevNode=previousAdjacentNode(prevNode))!=NULL)
     {
-        if(prevNode->getNodeType()==ELEMENT_NODE || prevNode->getNodeType()==COMMENT_NODE || prevNode->getNodeType()==PROCESSING_INSTRUCTION_NODE)
+        if(endsAdjacentText(prevNode))
             break;
+        pFirstTextNode=prevNode;
     }
     XMLBuffer buff(1023, GetDOMNodeMemoryManager);
-    DOMNode* nextNode;
-    while((nextNode=pWalker->nextNode())!=NULL)
+    const DOMNode* nextNode;
+    for(nextNode=pFirstTextNode; nextNode!=NULL; nextNode=nextAdjacentNode(nextNode, false))
     {
-        if(nextNode->getNodeType()==ELEMENT_NODE || nextNode->getNodeType()==COMMENT_NODE || nextNode->getNodeType()==PROCESSING_INSTRUCTION_NODE)
+        if(endsAdjacentText(nextNode))
             break;
         if(nextNode->getNodeType()==TEXT_NODE || nextNode->getNodeType()==CDATA_SECTION_NODE)
             buff.append(nextNode->getNodeValue());
     }
-    pWalker->release();
 
     XMLCh* wholeString = (XMLCh*)((DOMDocumentImpl*)doc)->allocate((buff.getLen()+1) * sizeof(XMLCh));
     XMLString::copyString(wholeString, buff.getRawBuffer());
@@ -179,24 +217,19 @@ const XMLCh* DOMTextImpl::getWholeText() const
 DOMText* DOMTextImpl::replaceWholeText(const XMLCh* newText)
 {
     DOMDocument *doc = getOwnerDocument();
-    DOMTreeWalker* pWalker=doc->createTreeWalker(doc->getDocumentElement(), DOMNodeFilter::SHOW_ALL, NULL, true);
-    pWalker->setCurrentNode((DOMNode*)this);
-    // Logically-adjacent text nodes are Text or CDATASection nodes that can be visited sequentially in document order or in
-    // reversed document order without entering, exiting, or passing over Element, Comment, or ProcessingInstruction nodes.
     DOMNode* pFirstTextNode=this;
-    DOMNode* prevNode;
-    while((prevNode=pWalker->previousNode())!=NULL)
+    DOMNode* prevNode=this;
+    while((prevNode=previousAdjacentNode(prevNode))!=NULL)
     {
-        if(prevNode->getNodeType()==ELEMENT_NODE || prevNode->getNodeType()==COMMENT_NODE || prevNode->getNodeType()==PROCESSING_INSTRUCTION_NODE)
+        if(endsAdjacentText(prevNode))
             break;
         pFirstTextNode=prevNode;
     }
     // before doing any change we need to check if we are going to remove an entity reference that doesn't contain just text
-    DOMNode* pCurrentNode=pWalker->getCurrentNode();
     DOMNode* nextNode;
-    while((nextNode=pWalker->nextNode())!=NULL)
+    for(nextNode=pFirstTextNode; nextNode!=NULL; nextNode=nextAdjacentNode(nextNode, false))
     {
-        if(nextNode->getNodeType()==ELEMENT_NODE || nextNode->getNodeType()==COMMENT_NODE || nextNode->getNodeType()==PROCESSING_INSTRUCTION_NODE)
+        if(endsAdjacentText(nextNode))
             break;
         if(nextNode->getNodeType()==ENTITY_REFERENCE_NODE)
         {
@@ -221,6 +254,9 @@ DOMText* DOMTextImpl::replaceWholeText(const XMLCh* newText)
         }
         else
         {
+            // the text to be replaced is read-only, and there is no place where a new node could go
+            if(pFirstTextNode->getParentNode()==NULL)
+                throw DOMException(DOMException::NO_MODIFICATION_ALLOWED_ERR, 0, GetDOMNodeMemoryManager);
             if(getNodeType()==TEXT_NODE)
                 retVal=doc->createTextNode(newText);
             else
@@ -228,21 +264,19 @@ DOMText* DOMTextImpl::replaceWholeText(const XMLCh* newText)
             pFirstTextNode->getParentNode()->insertBefore(retVal, pFirstTextNode);
         }
     }
-    // now delete all the following text nodes
-    pWalker->setCurrentNode(pCurrentNode);
-    while((nextNode=pWalker->nextNode())!=NULL)
+    // now delete all the other text nodes (a node that has no parent has no adjacent nodes and cannot be removed from anything)
+    nextNode=pFirstTextNode;
+    while(nextNode!=NULL && !endsAdjacentText(nextNode))
     {
-        if(nextNode->getNodeType()==ELEMENT_NODE || nextNode->getNodeType()==COMMENT_NODE || nextNode->getNodeType()==PROCESSING_INSTRUCTION_NODE)
-            break;
-        if(nextNode!=retVal)
+        // an entity reference goes together with its content
+        DOMNode* currentNode=nextNode;
+        nextNode=nextAdjacentNode(currentNode, true);
+        if(currentNode!=retVal && currentNode->getParentNode()!=NULL)
         {
-            // keep the tree walker valid
-            pWalker->previousNode();
-            nextNode->getParentNode()->removeChild(nextNode);
-            nextNode->release();
+            currentNode->getParentNode()->removeChild(currentNode);
+            currentNode->release();
         }
     }
-    pWalker->release();
     return retVal;
 }
 
